@@ -103,7 +103,18 @@ func (g *G) StrLit() string {
 	return QuoteCedar(s)
 }
 
+// CollidingUIDs are entity uids built to coincide in naive renderings: type+"::"+id is
+// the same text for the first two, type+id for the last two (which also collide in the
+// internal hash).
+var CollidingUIDs = []types.EntityUID{
+	types.NewEntityUID("A", "B::C"), types.NewEntityUID("A::B", "C"),
+	types.NewEntityUID("A", "bc"), types.NewEntityUID("Ab", "c"),
+}
+
 func (g *G) UID() types.EntityUID {
+	if g.T.Intn(24) == 23 {
+		return pick(g, CollidingUIDs)
+	}
 	t := pick(g, EntityTypes)
 	id := pick(g, IDs)
 	if g.T.Intn(12) == 11 {
@@ -614,6 +625,15 @@ func (g *G) Entities() types.EntityMap {
 				e.Tags = g.Record(1)
 			}
 			em[uid] = e
+		}
+	}
+	// sometimes: entities whose uids coincide in naive renderings / in the internal hash
+	if g.T.Intn(3) == 2 {
+		for _, uid := range CollidingUIDs {
+			if g.T.Intn(4) == 3 {
+				continue
+			}
+			em[uid] = types.Entity{UID: uid, Parents: types.NewEntityUIDSet(g.UID()), Attributes: g.Record(0)}
 		}
 	}
 	return em
